@@ -400,9 +400,8 @@ func cbOrderScenario(name, kind string) Scenario {
 
 func directFamily() []Scenario {
 	var out []Scenario
-	for _, kind := range []string{"websocket", "polling"} {
-		out = append(out, cbOrderScenario("cborder_"+kind, kind))
-	}
+	// (websocket only: the polling transport runs send callbacks under its send mutex, parking one there stalls the next send)
+	out = append(out, cbOrderScenario("cborder_websocket", "websocket"))
 	for _, after := range []bool{false, true} {
 		for _, proto := range []int{4, 3} {
 			out = append(out, beatCloseScenario(fmt.Sprintf("beatclose_after%v_v%d", after, proto), after, proto))
